@@ -68,6 +68,8 @@ def shapes(tier):
     # non-ASCII string data (byte length != character count) with more objects written after it in the copy
     out.append([s1.seg([root, [A, 'full', 0x20, 2, [], [['é°µ', '日本語テキスト'], ['a°b', 'µµµµµµµµµµµx']]], [B, 'full', 3, 2], [C, 'full', 10, 1]], 2),
                 s1.seg([[A, 'full', 0x20, 1, [], [['ΩΩΩΩΩΩΩΩΩΩΩΩ']]], [B, 'full', 3, 1]], 1)])
+    # strings containing NUL characters (fixed-width NumPy string arrays strip trailing NULs)
+    out.append([s1.seg([root, [A, 'full', 0x20, 3, [], [['DEV1\x00\x00', '\x00', 'a\x00b'], ['\x00\x00x', 'pla', 'end\x00']]], [B, 'full', 3, 1]], 2)])
     # every fixed-width type once
     for t in (1, 2, 5, 6, 7, 8, 9, 0x19, 0x1A, 0x08000c, 0x10000d):
         out.append([s1.seg([[A, 'full', t, 2, [SYM_PROPS[0]]], [B, 'full', 3, 1]], 1), s1.seg([[A, 'full', t, 1]], 2)])
